@@ -40,6 +40,7 @@ pub struct Facts {
     pub dead: bool,
     pub unmodelled: bool,
     pub rejected_ver: bool,
+    pub wire_broken: bool,
     pub probes: BTreeMap<&'static str, u64>,
     pub faults: BTreeMap<&'static str, u64>,
     pub signature: u64,
@@ -176,6 +177,8 @@ pub fn analyze(sc: &StreamScenario, out: &StreamOutcome) -> Analysis {
     let mut frames_in_last_read: usize;
     let mut wire_broken = false; // after the first outgoing mismatch stop classifying bytes
     let mut min_off = usize::MAX;
+    // keep-alive frame whose reply write failed: the implementation may drop it or deliver it later
+    let mut pending_skip: Option<usize> = None;
 
     let is_write_op = |op: usize| write_expect.contains_key(&op);
 
@@ -478,6 +481,16 @@ pub fn analyze(sc: &StreamScenario, out: &StreamOutcome) -> Analysis {
                             vio.push(v(clause, format!("read #{} returned {} but the stream holds only {} complete frames", facts.results.len(), short(&got), model.expects.len())));
                             dead = true;
                         } else {
+                            if pending_skip == Some(nf)
+                                && render_expect(&model.expects[nf]) != got
+                                && nf + 1 < model.expects.len()
+                                && render_expect(&model.expects[nf + 1]) == got
+                            {
+                                // the keep-alive whose reply could not be written was dropped
+                                nf += 1;
+                                facts.probe("keepalive_dropped_after_write_error");
+                            }
+                            pending_skip = None;
                             let exp = &model.expects[nf];
                             if *exp == Expect::Unmodelled {
                                 facts.unmodelled = true;
@@ -538,6 +551,12 @@ pub fn analyze(sc: &StreamScenario, out: &StreamOutcome) -> Analysis {
                         } else if consume_err(&mut injected_r, kind) {
                             facts.probe("transient_error_surfaced");
                         } else if consume_err(&mut injected_w, kind) {
+                            facts.probe("reply_write_error_surfaced");
+                            if nf < model.expects.len() && model.ends[nf] <= delivered {
+                                if let Expect::Pkt { keepalive: true, .. } = model.expects[nf] {
+                                    pending_skip = Some(nf);
+                                }
+                            }
                         } else if bad_length_pending(&model, nf, delivered) {
                             facts.probe("framing_error_result");
                             dead = true;
@@ -558,7 +577,7 @@ pub fn analyze(sc: &StreamScenario, out: &StreamOutcome) -> Analysis {
                         if !eof_seen {
                             vio.push(v("read.disconnected_without_eof", format!("read #{} returned Disconnected but the link never signalled end of stream", facts.results.len())));
                             dead = true;
-                        } else if nf < complete && !bad_length_pending(&model, nf, delivered) {
+                        } else if nf < complete && !bad_length_pending(&model, nf, delivered) && !(pending_skip == Some(nf) && nf + 1 == complete) {
                             vio.push(v("order.lost_at_eof", format!("Disconnected after {} frame results but {} complete frames were delivered", nf, complete)));
                             dead = true;
                         }
@@ -590,6 +609,7 @@ pub fn analyze(sc: &StreamScenario, out: &StreamOutcome) -> Analysis {
         }
     }
     facts.pong_bytes = p_off;
+    facts.wire_broken = wire_broken;
     facts.dead = dead;
     if ka_returned > 0 {
         facts.probe("keepalive_returned");
